@@ -283,3 +283,99 @@ pub open spec fn step3(c: Seq<usize>, d: Option<Seq<usize>>) -> bool {
     if val3(c, c.len() as int) == 0 { d.is_none() }
     else { d.is_some() && d.unwrap().len() == c.len() && digits_ok(d.unwrap()) && val3(d.unwrap(), c.len() as int) + 1 == val3(c, c.len() as int) }
 }
+
+// ------------------------------------------------------------------ whole runs (C20): the composition of the step contracts
+// y[i] is what the (i+1)-th call of TwoValuedInterpretationsIterator::next returns when the iterator was made by new(t):
+// the first call yields the stored all-BOT completion (contracts of new / next: counter value 0), every later call
+// satisfies step2 (binary successor, None after the all-TOP vector, None for ever after)
+pub open spec fn run2(y: Seq<Option<Seq<Term>>>, t: Seq<Term>, idx: Seq<usize>) -> bool {
+    &&& y.len() > 0
+    &&& y[0].is_some() && completion_of(y[0].unwrap(), t) && val2(y[0].unwrap(), idx, idx.len() as int) == 0
+    &&& forall|i: int| 0 <= i < y.len() - 1 ==> ((#[trigger] y[i]).is_some() ==> step2(y[i].unwrap(), y[i + 1], idx)) && (y[i].is_none() ==> y[i + 1].is_none())
+}
+pub proof fn lemma_step2_completion(c: Seq<Term>, d: Seq<Term>, t: Seq<Term>, idx: Seq<usize>)
+    requires idx_und(idx, t), completion_of(c, t), same_outside(c, d, idx), bits_ok(d, idx),
+    ensures completion_of(d, t)
+{
+    assert forall|p: int| 0 <= p < t.len() implies if und(t[p]) { (#[trigger] d[p]).0 <= 1 } else { d[p] == t[p] } by {
+        if und(t[p]) { let j = choose|j: int| 0 <= j < idx.len() && #[trigger] idx[j] == p; assert(d[idx[j] as int].0 <= 1); }
+        else { assert forall|j: int| 0 <= j < idx.len() implies idx[j] != p by { assert(und(t[idx[j] as int])); } }
+    }
+}
+// the i-th answer: for i < 2^k the completion with counter value i, afterwards None
+pub proof fn lemma_run2_at(y: Seq<Option<Seq<Term>>>, t: Seq<Term>, idx: Seq<usize>, i: int)
+    requires run2(y, t, idx), idx_und(idx, t), 0 <= i < y.len(),
+    ensures
+        i < pow2(idx.len() as nat) ==> y[i].is_some() && completion_of(y[i].unwrap(), t) && val2(y[i].unwrap(), idx, idx.len() as int) == i,
+        i >= pow2(idx.len() as nat) ==> y[i].is_none(),
+    decreases i
+{
+    let k = idx.len() as int;
+    if i == 0 { lemma_val2_bound(y[0].unwrap(), idx, k); }
+    else {
+        lemma_run2_at(y, t, idx, i - 1);
+        let p = y[i - 1];
+        assert((p.is_some() ==> step2(p.unwrap(), y[i - 1 + 1], idx)) && (p.is_none() ==> y[i - 1 + 1].is_none()));
+        if i - 1 < pow2(k as nat) {
+            let c = p.unwrap();
+            if i < pow2(k as nat) { lemma_step2_completion(c, y[i].unwrap(), t, idx); }
+        }
+    }
+}
+// every total completion of t is answered exactly once: at call number val2(c) + 1 and at no other call
+pub proof fn lemma_run2_exact(y: Seq<Option<Seq<Term>>>, t: Seq<Term>, idx: Seq<usize>, c: Seq<Term>)
+    requires run2(y, t, idx), idx_und(idx, t), completion_of(c, t),
+    ensures
+        val2(c, idx, idx.len() as int) < pow2(idx.len() as nat),
+        forall|i: int| 0 <= i < y.len() ==> ((#[trigger] y[i]) == Some(c) <==> i == val2(c, idx, idx.len() as int)),
+{
+    let k = idx.len() as int;
+    let v = val2(c, idx, k) as int;
+    lemma_val2_bound(c, idx, k);
+    assert forall|i: int| 0 <= i < y.len() implies ((#[trigger] y[i]) == Some(c) <==> i == v) by {
+        lemma_run2_at(y, t, idx, i);
+        if i == v { lemma_completion_reached(y[i].unwrap(), c, t, idx); }
+    }
+}
+// the odometer states of ThreeValuedInterpretationsIterator: s[0] is the all-2 state made by new (it decodes to the
+// interpretation itself), every later call of next moves by step3 (ternary predecessor, None after the all-0 state)
+pub open spec fn run3(s: Seq<Option<Seq<usize>>>, k: int) -> bool {
+    &&& s.len() > 0
+    &&& s[0].is_some() && s[0].unwrap().len() == k && forall|j: int| 0 <= j < k ==> (#[trigger] s[0].unwrap()[j]) == 2
+    &&& forall|i: int| 0 <= i < s.len() - 1 ==> ((#[trigger] s[i]).is_some() ==> step3(s[i].unwrap(), s[i + 1])) && (s[i].is_none() ==> s[i + 1].is_none())
+}
+pub proof fn lemma_run3_at(s: Seq<Option<Seq<usize>>>, k: int, i: int)
+    requires run3(s, k), 0 <= k, 0 <= i < s.len(),
+    ensures
+        i < pow3(k as nat) ==> s[i].is_some() && s[i].unwrap().len() == k && digits_ok(s[i].unwrap()) && val3(s[i].unwrap(), k) + i + 1 == pow3(k as nat),
+        i >= pow3(k as nat) ==> s[i].is_none(),
+    decreases i
+{
+    lemma_pow3_pos(k as nat);
+    if i == 0 { lemma_val3_all2(s[0].unwrap(), k); }
+    else {
+        lemma_run3_at(s, k, i - 1);
+        let p = s[i - 1];
+        assert((p.is_some() ==> step3(p.unwrap(), s[i - 1 + 1])) && (p.is_none() ==> s[i - 1 + 1].is_none()));
+    }
+}
+// every refinement r of the interpretation is answered exactly once (next returns the decoding of the state)
+pub proof fn lemma_run3_exact(s: Seq<Option<Seq<usize>>>, orig: Seq<Term>, idx: Seq<usize>, r: Seq<Term>)
+    requires run3(s, idx.len() as int), idx_und(idx, orig), refinement_of(r, orig),
+    ensures
+        val3(enc3(r, idx), idx.len() as int) < pow3(idx.len() as nat),
+        forall|i: int| 0 <= i < s.len() ==> (((#[trigger] s[i]).is_some() && dec3(orig, idx, s[i].unwrap(), idx.len() as int) == r) <==> i + 1 + val3(enc3(r, idx), idx.len() as int) == pow3(idx.len() as nat)),
+{
+    let k = idx.len() as int;
+    let e = enc3(r, idx);
+    lemma_refinement_reached(r, orig, idx);
+    lemma_val3_bound(e, k);
+    assert forall|i: int| 0 <= i < s.len() implies (((#[trigger] s[i]).is_some() && dec3(orig, idx, s[i].unwrap(), k) == r) <==> i + 1 + val3(e, k) == pow3(k as nat)) by {
+        lemma_run3_at(s, k, i);
+        if s[i].is_some() {
+            let c = s[i].unwrap();
+            if dec3(orig, idx, c, k) == r { lemma_dec3_inj(orig, idx, c, e); }
+            if i + 1 + val3(e, k) == pow3(k as nat) { lemma_val3_inj(c, e, k); assert(c =~= e); }
+        }
+    }
+}
